@@ -126,10 +126,14 @@ Degenerate(e) == /\ ~Panicked(e)
                  /\ IF e.op = "detp4" THEN \E i \in 1..4 : e.res[i] = <<>> /\ IMod(ExpDet(e), e.primes[i]) # <<>>
                     ELSE e.res = IZero /\ ExpDet(e) # IZero
 
-LatticeOK(e) == IF Panicked(e) THEN Refused(e) ELSE e.res = ExpIndex(e)
+\* the property: the index is returned whenever the bounds bracket it (BoundsOK is a Witness).  The heuristic
+\* routines give up on some inputs by a panic of their own ("failed to determine lattice index", the
+\* floating-point integrality assertion, reduce's det == h assertion): those are genuine, recorded defects
+\* (known_findings.json, matched by call site), not part of the contract.
+LatticeOK(e) == ~Panicked(e) /\ e.res = ExpIndex(e)
 
 SnfOK(e) ==
-  IF Panicked(e) THEN Refused(e)
+  IF Panicked(e) THEN FALSE
   ELSE LET os == [j \in 1..Len(e.out) |-> e.out[j].mag]
        IN /\ e.h = ExpIndex(e)
           /\ \A j \in 1..Len(e.out) : ~e.out[j].neg /\ e.out[j].mag # <<>>
@@ -168,7 +172,7 @@ WitnessOK(e) ==
 
 \* no verdict: announced refusals and the Wiedemann degenerate case
 NoDrift(e) ==
-  CASE e.op \in {"lattice_dense", "lattice_sparse", "snf"} -> ~Refused(e)
+  CASE e.op \in {"lattice_dense", "lattice_sparse", "snf"} -> TRUE
     [] e.op \in {"det_sparse", "detp4"} -> TRUE
     [] OTHER -> TRUE
 
